@@ -149,7 +149,7 @@ type Event struct {
 }
 
 type Fault struct {
-	Kind string `json:"kind"` // fetch | fetch-hazard | versions | versions-empty | source | finder-error
+	Kind string `json:"kind"` // fetch | fetch-hazard | fetch-panic | finder-panic | versions | versions-empty | source | finder-error
 	N    int    `json:"n"`    // fire on the n-th call of that kind (1-based)
 }
 
@@ -234,6 +234,9 @@ func (h *Harness) FetchSourcePackage(ctx context.Context, sourceType string, u *
 	h.log("fetch", key, "")
 	if h.fire("fetch") {
 		return sourcebundle.FetchSourcePackageResponse{}, fmt.Errorf("injected fetch failure for %s", key)
+	}
+	if h.fire("fetch-panic") {
+		panic("injected panic in the fetcher for " + key)
 	}
 	// a download that succeeds but delivers something the builder has to refuse afterwards
 	hazard := h.fire("fetch-hazard")
@@ -398,6 +401,9 @@ func (f *Finder) FindDependencies(fsys iofs.FS, subPath string, deps *sourcebund
 	h.log("analyse", key, "")
 	if h.Overbudget {
 		return sourcebundle.Diagnostics{harnessDiag{Diag{Severity: "E", Summary: "harness call budget exceeded", Detail: "the build does not terminate"}}}
+	}
+	if h.fire("finder-panic") {
+		panic("injected panic in the dependency finder at " + key)
 	}
 	if h.fire("finder-error") {
 		return sourcebundle.Diagnostics{harnessDiag{Diag{Severity: "E", Summary: "injected finder error", Detail: key}}}
